@@ -104,6 +104,20 @@ def run(ctx) -> None:
         wo = g1.reachable(blocked_nodes=[hits[0].id])
         ctx.check("R1", all(n.id not in wo for n in rets), "v1 incr: every version-returning path passes the successor step", "v1version.incr: a version is returned without advancing BUILD", "", loc=v1.loc())
 
+    # after the successor step nothing puts another build id into the record: every `_replace(bid=...)` of the incr functions is the successor itself
+    for fq_ in ("v2version.incr", "v1version.incr"):          # (_incr_numeric, with its padding step, is evaluated as a whole above)
+        if not prog.has_function(fq_):
+            continue
+        f_ = prog.function(fq_)
+        for c_ in ast.walk(f_.node):
+            if isinstance(c_, ast.Call) and isinstance(c_.func, ast.Attribute) and c_.func.attr == "_replace":
+                for kw_ in c_.keywords:
+                    if kw_.arg == "bid":
+                        is_succ = any(isinstance(x_, ast.Call) and unparse(x_.func).endswith("next_id") for x_ in ast.walk(shapes.resolve_alias(f_, kw_.value)))
+                        ctx.check("R1", is_succ, f"{fq_}: `{unparse(c_)[:60]}` stores the successor", f"{fq_}: a build id other than the successor is stored in the bumped record",
+                                  f"`{unparse(c_)[:80]}`: the version that is returned carries a BUILD that was not advanced (e.g. the old one), so BUILD does not grow on this bump", loc=f_.loc(c_),
+                                  witness={"version": "v202103.1005-rc", "flag": "--tag final"})
+
     # ---------------------------------------------------------------- R2
     init = prog.const("version", "V2_FIELD_INITIAL_VALUES")
     ctx.check("R2", "bid" not in init, "'bid' is not in V2_FIELD_INITIAL_VALUES", "version.V2_FIELD_INITIAL_VALUES resets BUILD", f"{init}", loc="src/bumpver/version.py")
@@ -111,6 +125,14 @@ def run(ctx) -> None:
     ctx.visit(rr.fq)
     bad = [c for c in ast.walk(rr.node) if isinstance(c, ast.Call) and isinstance(c.func, ast.Attribute) and c.func.attr == "_replace" and any(kw.arg == "bid" for kw in c.keywords)]
     consts = [c for c in ast.walk(rr.node) if isinstance(c, ast.Constant) and c.value == "bid"]
+    # the generic reset emits table entries only; a rule that names the build id next to it resets BUILD
+    if prog.has_function("v2version._iter_reset_field_items"):
+        irf = prog.function("v2version._iter_reset_field_items")
+        ctx.visit(irf.fq)
+        named = [c for c in ast.walk(irf.node) if isinstance(c, ast.Constant) and c.value == "bid"]
+        ctx.check("R2", not named, "_iter_reset_field_items never names bid", "v2version._iter_reset_field_items resets BUILD",
+                  "the reset generator mentions the field 'bid': the build number starts over when a part to its left changes, so a later version carries a smaller BUILD than an earlier one",
+                  loc=irf.loc(named[0]) if named else irf.loc(), witness={"version": "v1.2.3.1006", "pattern": "vMAJOR.MINOR.PATCH.BUILD", "flag": "--patch"})
     ctx.check("R2", not bad and not consts, "_reset_rollover_fields never stores bid", "v2version._reset_rollover_fields resets BUILD", f"{[unparse(b) for b in bad]}", loc=rr.loc())
 
     # ---------------------------------------------------------------- R3
